@@ -62,7 +62,7 @@ PROPS["C06"] = {
 }
 
 PROPS["C04"] = {
-    "kani": ["dec_tables", "dec_payload"],
+    "kani": ["dec_tables", "dec_payload", "dec_matchers"],
     "verus": ["numdec"],
     "explanation": "",
     "assumptions": [],
@@ -72,7 +72,7 @@ PROPS["C04"] = {
     "level_note": "",
 }
 PROPS["C02"] = {
-    "kani": ["dec_payload"],
+    "kani": ["dec_payload", "dec_matchers"],
     "verus": ["numdec"],
     "explanation": "",
     "assumptions": [],
@@ -94,12 +94,23 @@ PROPS["C14"] = {
 }
 
 PROPS["C07"] = {
-    "kani": [],
+    "kani": ["c07_twin", "c08_bounds"],
     "verus": ["surface"],
     "explanation": "",
     "assumptions": [],
     "trusted_base": COMMON_TRUSTED,
     "technique": "Verus: ghost window model (root matrix, origin, extent, transposed flag) as representation invariant on the extracted Shape/Surface/SurfaceMut code (unbounded)",
+    "level_text": "",
+    "level_note": "",
+}
+
+PROPS["C05"] = {
+    "kani": ["c05_encoder"],
+    "verus": [],
+    "explanation": "",
+    "assumptions": [],
+    "trusted_base": COMMON_TRUSTED,
+    "technique": "Kani/CBMC full-domain harnesses on TTYEncoder::encode (panic freedom, literal sequences, SGR code selection); decimal rendering by core::fmt assumed",
     "level_text": "",
     "level_note": "",
 }
